@@ -199,7 +199,7 @@ impl Check for C08 {
         "C08"
     }
     fn rule(&self) -> &'static str {
-        "case = one to three single-character patterns in one scanner (the further ones mostly near-identical siblings of the first: polarity of the class or of a named item toggled, literal escape form changed; pattern j is expected to get what the earlier patterns leave over), the first a generated bracketed class of nesting depth <= 3 (4 thorough) built from literals in every escape form, ranges (single point, across the surrogate gap, up to U+10FFFF), Perl / ASCII / Unicode named items with both negation syntaxes, nested brackets, negation at every level, unions and bracket-wrapped operands of && -- ~~ (also chained); plus every class of the repository corpora; plus fixed cases: every literal form of every alphabet character, `.`, every named item alone and negated, and both polarities of every named item together in one scanner in both orders; oracle = for EVERY one of the 1 112 064 scalar values: the character is a token of the scanner built from that single pattern (public API, input = the string of all scalar values, every token exactly one character) iff the boolean evaluation of the expression says so, named items looked up in their base sets measured when used alone; \\d \\s \\w restricted to ASCII must be [0-9], [\\t\\n\\x0B\\x0C\\r ], [0-9A-Za-z_]; non-trivial = expression with a set operator or a negation below the top level; exhaustive in the character dimension"
+        "case = one to three single-character patterns in one scanner (the further ones mostly near-identical siblings of the first: polarity of the class or of a named item toggled, literal escape form changed; pattern j is expected to get what the earlier patterns leave over), the first a generated bracketed class of nesting depth <= 3 (4 thorough) built from literals in every escape form, ranges (single point, across the surrogate gap, up to U+10FFFF), Perl / ASCII / Unicode named items with both negation syntaxes, nested brackets, negation at every level, unions (~4% with 8-24 overlapping / nested literals and ranges) and bracket-wrapped operands of && -- ~~ (also chained, ~8% with a missing right operand = empty set); plus every class of the repository corpora; plus fixed cases: every literal form of every alphabet character, `.`, every named item alone and negated, and both polarities of every named item together in one scanner in both orders; oracle = for EVERY one of the 1 112 064 scalar values: the character is a token of the scanner built from that single pattern (public API, input = the string of all scalar values, every token exactly one character) iff the boolean evaluation of the expression says so, named items looked up in their base sets measured when used alone; \\d \\s \\w restricted to ASCII must be [0-9], [\\t\\n\\x0B\\x0C\\r ], [0-9A-Za-z_]; non-trivial = expression with a set operator or a negation below the top level; exhaustive in the character dimension"
     }
     fn assumptions(&self) -> Vec<String> {
         vec![
